@@ -37,7 +37,7 @@ m = dict(
                                  'function under both debug_assertions settings; Kani/CBMC decides lifted bit-level fragments')],
     checks=checks,
     not_applicable=napp,
-    notes='See DESIGN.md. Exit 2 from a check means inconclusive (lost anchor, unsupported construct, resource limit), never a verdict.',
+    notes='See DESIGN.md. Exit 2 from a check means inconclusive (lost anchor, unsupported construct, resource limit), never a verdict. An obligation the verifier could not decide in a run (a function fell out of its reach) is a VIOLATION when an input of its witness families fails on the real code; it is accepted as bounded-only (exit 0, printed as BOUNDED-ONLY and listed under coverage.undecided_bounded_only, never among the discharged obligations) when at least 500 such inputs pass and the recorded corpus (golden/corpus.json) is answered as by the last fully verified tree; otherwise exit 2. Bounded stand-ins (BOUNDED.*) run on every check for the functions outside the verifier reach and are listed under coverage.bounded_checks.',
 )
 json.dump(m, open(os.path.join(HERE, 'MANIFEST.json'), 'w'), indent=1)
 print('MANIFEST: %d checks, %d not applicable' % (len(checks), len(napp)))
